@@ -3104,7 +3104,7 @@ theorem ofx_validate (hcv : ConvOK cv Ptext) {tbl : List (String × Shape)} {ci 
     {kw : List (Str × Node)} {cis : Nat} {fs : List (Str × Node)}
     (hso : lookup "signonmsgsrqv1".toList kw = some (.agg cis fs []))
     (hkeys : ∀ k ∈ kw.map (·.1), k ∈ ["signonmsgsrqv1", "bankmsgsrqv1", "creditcardmsgsrqv1",
-      "invstmtmsgsrqv1"].map String.toList)
+      "invstmtmsgsrqv1", "signupmsgsrqv1", "profmsgsrqv1", "tax1099msgsrqv1"].map String.toList)
     (hkwfit : ∀ p ∈ kw, KwFit c Ptext p)
     {fields : List (Str × Node)} (hs : setAttrs S cv (specNoList c) kw = .ok fields) :
     validateArgs S c [] (rawKwOf S cv esc fields c.spec) = .ok () := by
@@ -3127,7 +3127,7 @@ theorem ofx_validate (hcv : ConvOK cv Ptext) {tbl : List (String × Shape)} {ci 
     obtain ⟨r, hr⟩ := key_lookup_some (List.mem_map.mpr ⟨p, hp, rfl⟩)
     have hk := hkeys _ (hpassed _ _ hr)
     simp only [List.map_cons, List.map_nil, List.mem_cons, List.mem_nil_iff, or_false] at hk
-    rcases hk with h | h | h | h <;> rw [h] <;> decide
+    rcases hk with h | h | h | h | h | h | h <;> rw [h] <;> decide
   -- the request sign-on is written back, the response sign-on is not
   obtain ⟨a, ha, hn, hsh⟩ := hc.attrs _ _ hsq
   obtain ⟨r, hr, hl⟩ := setAttrs_lookup (specNoList c) kw fields hs hc.nodup a ha
@@ -3149,7 +3149,7 @@ theorem ofx_validate (hcv : ConvOK cv Ptext) {tbl : List (String × Shape)} {ci 
     | some w =>
       have := hkeys _ (lookup_some_key hl2)
       simp only [List.map_cons, List.map_nil, List.mem_cons, List.mem_nil_iff, or_false] at this
-      rcases this with h | h | h | h <;> exact absurd h (by decide)
+      rcases this with h | h | h | h | h | h | h <;> exact absurd h (by decide)
   have hcount : mutexCount (rawKwOf S cv esc fields c.spec)
       ["signonmsgsrqv1".toList, "signonmsgsrsv1".toList] = 1 := by
     simp only [mutexCount, List.filter, hq', hrs, notNone, List.length]
@@ -3239,7 +3239,10 @@ theorem requestStatements_valid (hS : ReqWF S = true) (hW : WireWF S = true) (hc
     · obtain ⟨e, he, rfl⟩ := List.mem_map.mp hk
       have := (hmsgW e he).2
       simp only [List.map_cons, List.map_nil, List.mem_cons, List.mem_nil_iff, or_false] at this ⊢
-      exact Or.inr this
+      rcases this with h | h | h
+      · exact Or.inr (Or.inl h)
+      · exact Or.inr (Or.inr (Or.inl h))
+      · exact Or.inr (Or.inr (Or.inr (Or.inl h)))
 
 end
 section
@@ -3336,6 +3339,299 @@ theorem types_convInto (enums : List (List Str)) (he : enumsPlainB enums = true)
     intro k r d hk hd
     cases k <;> simp [Shape.ofKind] at hk
     exact ⟨d, rfl, hd⟩
+
+end
+
+/-! ## Part 15: account-info, profile and tax requests are `Valid` instances -/
+
+/-- `validate_args` of the message set of the tax request: only "at least one member" -/
+def taxMsgsValB (S : Schema) : Bool :=
+  match S.findIdx? "TAX1099MSGSRQV1".toList with
+  | none => false
+  | some ci =>
+    match S.cls? ci with
+    | none => false
+    | some c => decide (c.extra = .tax1099msgsrqv1) && c.optMutex.isEmpty && c.reqMutex.isEmpty
+
+section
+variable {S : Schema} {cv : Conv} {Ptext : Str → Prop} {Pd : DT → Prop} {esc : Str → Str}
+  {Dom : Kind → Bool → Val → Prop}
+
+/-- a request made of the sign-on and one message set holding one wrapper is `Valid`; `hvalMsgs` is the message
+    set's own `validate_args` on its one member -/
+theorem single_valid (hS : ReqWF S = true) (hW : WireWF S = true) (hcv : ConvOK cv Ptext)
+    (hinto : ConvInto cv S.enums Dom Ptext Pd) {attr msgCls : String} (hattr : (attr, Shape.sub) ∈ tOFX)
+    (hattr' : attr ∈ ["signupmsgsrqv1", "profmsgsrqv1", "tax1099msgsrqv1"])
+    (hmsg : (msgCls, tMSGS) ∈ reqTable) (hup : upper attr.toList = msgCls.toList)
+    {cis : Nat} {fs : List (Str × Node)} (hvso : Valid S cv esc Dom (.agg cis fs []))
+    (hsoidx : S.findIdx? "SIGNONMSGSRQV1".toList = some cis)
+    {trn : Node} (hvtrn : Valid S cv esc Dom trn)
+    (htrn : ∃ cj f i cjc, trn = .agg cj f i ∧ S.cls? cj = some cjc ∧ '.' ∉ cjc.name)
+    (hvalMsgs : ∀ ci c, ClsFits S msgCls tMSGS ci c → ∀ kw, validateArgs S c [trn] kw = .ok ())
+    {msgs root : Node} (hmsgs : mk S cv msgCls [trn] [] = .ok msgs)
+    (hroot : mk S cv "OFX" [] [kv "signonmsgsrqv1" (.agg cis fs []), kv attr msgs] = .ok root) :
+    Valid S cv esc Dom root := by
+  obtain ⟨ciM, cM, hcM⟩ := reqWF_cls hS hmsg
+  have hwM := wireWF_cls hW hmsg hcM
+  have hvM : Valid S cv esc Dom msgs :=
+    mk_valid hcv hinto hcM hwM.plain (forall_kw_nil _)
+      (fun m hm => by simp only [List.mem_singleton] at hm; subst hm; exact ⟨hvtrn, htrn⟩)
+      (fun _ _ => hvalMsgs ciM cM hcM _) hmsgs
+  obtain ⟨fM, rfl⟩ := mk_shape hcM hmsgs
+  obtain ⟨ciO, cO, hcO⟩ := reqWF_cls hS (name := "OFX") (tbl := tOFX) (by simp [reqTable])
+  have hwO := wireWF_cls hW (by simp [reqTable]) hcO
+  have hxO := wireWF_ofx hW hcO
+  have hkwO : ∀ p ∈ [kv "signonmsgsrqv1" (.agg cis fs []), kv attr (.agg ciM fM [trn])],
+      KwWire S cv esc Dom cO Ptext Pd p :=
+    forall_kw_cons (kwWire_sub hwO (k := "signonmsgsrqv1") (by simp)
+      (by rw [show upper "signonmsgsrqv1".toList = "SIGNONMSGSRQV1".toList from by decide]; exact hsoidx) hvso)
+    (forall_kw_cons (kwWire_sub hwO (k := attr) hattr (by rw [hup]; exact hcM.idx) hvM) (forall_kw_nil _))
+  apply mk_valid hcv hinto hcO hwO.plain hkwO (by simp) _ hroot
+  intro fields hsf
+  apply ofx_validate hcv hcO (by simp) hwO.plain.wf hxO (cis := cis) (fs := fs) _ _
+    (fun p hp => (hkwO p hp).fit) hsf
+  · simp [lookup, kv]
+  · intro k hk
+    simp only [List.map_cons, List.map_nil, List.mem_cons, List.mem_nil_iff, or_false, kv] at hk hattr' ⊢
+    rcases hk with rfl | rfl
+    · exact Or.inl rfl
+    · rcases hattr' with rfl | rfl | rfl
+      · exact Or.inr (Or.inr (Or.inr (Or.inr (Or.inl rfl))))
+      · exact Or.inr (Or.inr (Or.inr (Or.inr (Or.inr (Or.inl rfl)))))
+      · exact Or.inr (Or.inr (Or.inr (Or.inr (Or.inr (Or.inr rfl)))))
+
+theorem requestAccounts_valid (hS : ReqWF S = true) (hW : WireWF S = true) (hcv : ConvOK cv Ptext)
+    (hinto : ConvInto cv S.enums Dom Ptext Pd) (laws : ConvLaws cv S.enums esc Dom) (cfg : Cfg) (pw : Str)
+    (dtacctup : Option DT) (us : Nat → Str) (dtc : DT) (htexts : ∀ s ∈ cfg.texts, Ptext s) (hpw : Ptext pw)
+    (hd : ∀ d, dtacctup = some d → Pd d) (hdt : Pd dtc) (hu : Ptext (us 0)) {root : Node}
+    (h : requestAccounts S cv cfg pw dtacctup us dtc = .ok root) : Valid S cv esc Dom root := by
+  simp only [requestAccounts] at h
+  obtain ⟨so, hso, h1⟩ := bind_ok h
+  obtain ⟨rq, hrq, h2⟩ := bind_ok h1
+  obtain ⟨trn, htrn, h3⟩ := bind_ok h2
+  obtain ⟨msgs, hmsgs, hroot⟩ := bind_ok h3
+  clear h h1 h2 h3
+  obtain ⟨hvso, cis, fs, rfl, hsoidx⟩ := signon_valid (esc := esc) hS hW hcv hinto laws cfg pw none dtc htexts hpw
+    (by simp) hdt hso
+  obtain ⟨ci, c, hc⟩ := reqWF_cls hS (name := "ACCTINFORQ") (tbl := tACCTINFORQ) (by simp [reqTable])
+  have hw := wireWF_cls hW (by simp [reqTable]) hc
+  have htr := wireWF_triv hW (name := "ACCTINFORQ") (by simp [reqTable]) (by decide) (by decide) (by decide) hc
+  have hv := mk_valid_triv (esc := esc) hcv hinto hc hw htr
+    (forall_kw_cons (kwWire_odt hc (k := "dtacctup") (by simp) hd) (forall_kw_nil _)) (by simp) hrq
+  obtain ⟨f, rfl⟩ := mk_shape hc hrq
+  obtain ⟨hvt, cit, ft, ct, rfl, hct, hdot⟩ := trn_valid hS hW hcv hinto (name := "ACCTINFOTRNRQ")
+    (inner := "acctinforq") (tbl := tACCTINFOTRNRQ) (by simp [reqTable]) (by simp) (by simp) (by decide) (by decide)
+    (by decide) hu (by rw [show upper "acctinforq".toList = "ACCTINFORQ".toList from by decide]; exact hc.idx) hv htrn
+  refine single_valid hS hW hcv hinto (attr := "signupmsgsrqv1") (msgCls := "SIGNUPMSGSRQV1") (by simp) (by simp)
+    (by simp [reqTable]) (by decide) hvso hsoidx hvt ⟨cit, ft, [], ct, rfl, hct, hdot⟩ ?_ hmsgs hroot
+  intro ciM cM hcM kw
+  have := wireWF_triv hW (name := "SIGNUPMSGSRQV1") (by simp [reqTable]) (by decide) (by decide) (by decide) hcM
+  exact validate_trivial S cM _ _ this.1 this.2.1 this.2.2
+
+theorem requestProfile_valid (hS : ReqWF S = true) (hW : WireWF S = true) (hcv : ConvOK cv Ptext)
+    (hinto : ConvInto cv S.enums Dom Ptext Pd) (laws : ConvLaws cv S.enums esc Dom) (cfg : Cfg)
+    (dtprofup : Option DT) (us : Nat → Str) (dtc : DT) (htexts : ∀ s ∈ cfg.texts, Ptext s)
+    (hph : Ptext authPlaceholder) (hnone : Ptext "NONE".toList)
+    (hd : Pd (orDefault dtprofup defaultDtprofup)) (hdt : Pd dtc) (hu : Ptext (us 0)) {root : Node}
+    (h : requestProfile S cv cfg dtprofup us dtc = .ok root) : Valid S cv esc Dom root := by
+  simp only [requestProfile] at h
+  obtain ⟨rq, hrq, h1⟩ := bind_ok h
+  obtain ⟨trn, htrn, h2⟩ := bind_ok h1
+  obtain ⟨so, hso, h3⟩ := bind_ok h2
+  obtain ⟨msgs, hmsgs, hroot⟩ := bind_ok h3
+  clear h h1 h2 h3
+  obtain ⟨hvso, cis, fs, rfl, hsoidx⟩ := signon_valid (esc := esc) hS hW hcv hinto laws cfg authPlaceholder
+    (some authPlaceholder) dtc htexts hph
+    (by intro s hs; simp only [Option.some.injEq] at hs; exact hs ▸ hph) hdt hso
+  obtain ⟨ci, c, hc⟩ := reqWF_cls hS (name := "PROFRQ") (tbl := tPROFRQ) (by simp [reqTable])
+  have hw := wireWF_cls hW (by simp [reqTable]) hc
+  have htr := wireWF_triv hW (name := "PROFRQ") (by simp [reqTable]) (by decide) (by decide) (by decide) hc
+  have hv := mk_valid_triv (esc := esc) hcv hinto hc hw htr
+    (forall_kw_cons (kwWire_sv hc (k := "clientrouting") (by simp) hnone)
+    (forall_kw_cons (kwWire_leaf hc (k := "dtprofup") (sh := .date) (by simp) (by simp [Shape.fits])
+      (by simpa [NodeWire] using hd)) (forall_kw_nil _))) (by simp) hrq
+  obtain ⟨f, rfl⟩ := mk_shape hc hrq
+  obtain ⟨hvt, cit, ft, ct, rfl, hct, hdot⟩ := trn_valid hS hW hcv hinto (name := "PROFTRNRQ")
+    (inner := "profrq") (tbl := tPROFTRNRQ) (by simp [reqTable]) (by simp) (by simp) (by decide) (by decide)
+    (by decide) hu (by rw [show upper "profrq".toList = "PROFRQ".toList from by decide]; exact hc.idx) hv htrn
+  refine single_valid hS hW hcv hinto (attr := "profmsgsrqv1") (msgCls := "PROFMSGSRQV1") (by simp) (by simp)
+    (by simp [reqTable]) (by decide) hvso hsoidx hvt ⟨cit, ft, [], ct, rfl, hct, hdot⟩ ?_ hmsgs hroot
+  intro ciM cM hcM kw
+  have := wireWF_triv hW (name := "PROFMSGSRQV1") (by simp [reqTable]) (by decide) (by decide) (by decide) hcM
+  exact validate_trivial S cM _ _ this.1 this.2.1 this.2.2
+
+/-- what `setattr` stored for wire keywords is admissible (the per-attribute premise of `construct_valid(_any)`) -/
+theorem kw_fieldOk (hcv : ConvOK cv Ptext) (hinto : ConvInto cv S.enums Dom Ptext Pd) {c : Cls}
+    (hnd : ((specNoList c).map (·.name)).Nodup) {kw : List (Str × Node)}
+    (hkw : ∀ p ∈ kw, KwWire S cv esc Dom c Ptext Pd p) :
+    ∀ a ∈ specNoList c, a.kind.isUnsupported = false → ∀ v,
+      setAttr S cv a ((lookup a.name kw).getD (.val .none)) = .ok (some v) →
+      FieldOk Dom a v ∧ (v.isAgg = true → Valid S cv esc Dom v) := by
+  intro a ha hu v hset
+  have hnl : a.kind.isList = false := by simpa [specNoList] using (List.mem_filter.mp ha).2
+  have hnonecase : ∀ v, setAttr S cv a (.val .none) = .ok (some v) →
+      FieldOk Dom a v ∧ (v.isAgg = true → Valid S cv esc Dom v) := by
+    intro v hset
+    rcases setAttr_none hcv a _ hset with h0 | h0
+    · simp at h0
+    · simp only [Option.some.injEq] at h0
+      subst h0
+      exact ⟨fieldOk_none hcv hinto a hnl hu hset, by simp [Node.isAgg]⟩
+  cases hl : lookup a.name kw with
+  | none =>
+    rw [hl] at hset
+    exact hnonecase v hset
+  | some v0 =>
+    rw [hl] at hset
+    simp only [Option.getD_some] at hset
+    rcases hkw _ (lookup_mem hl) with hnone | ⟨a', ha', hn', sh, hsh, hfit, hwire, hagg⟩
+    · simp only at hnone
+      subst hnone
+      exact hnonecase v hset
+    · have : a' = a := nodup_map_inj (·.name) hnd ha' ha hn'
+      subst this
+      have hv := setAttr_faithful hcv a' sh v0 _ hsh hfit hset
+      simp only [Option.some.injEq] at hv
+      subst hv
+      cases v0 with
+      | agg cj f i =>
+        obtain ⟨hk, hvalid⟩ := hagg cj f i rfl
+        refine ⟨?_, fun _ => hvalid⟩
+        unfold FieldOk
+        simp only [hk, Kind.subTarget, normNode]
+        exact Or.inr ⟨f, i, rfl⟩
+      | val x =>
+        by_cases hx : x = .none
+        · subst hx
+          exact hnonecase _ hset
+        · have hsub : sh ≠ .sub := by
+            intro e; subst e
+            cases x with
+            | none => exact hx rfl
+            | _ => simp [Shape.fits] at hfit
+          exact ⟨fieldOk_leaf hcv hinto a' sh x hsh hsub hfit hwire hset, by simp [normNode, Node.isAgg]⟩
+
+
+/-- what C06 assumes of the integer converter on canonical decimal texts, wire-domain side -/
+def ConvYearDom (cv : Conv) (enums : List (List Str)) (Dom : Kind → Bool → Val → Prop) : Prop :=
+  ∀ l r (j : Int) x, cv.convert enums (.integer l) r (.str (pyStrInt j)) = .ok x → Dom (.integer l) r x
+
+theorem requestTax_valid (hS : ReqWF S = true) (hW : WireWF S = true) (hT : taxWFB S = true)
+    (hTM : taxMsgsValB S = true)
+    (hTany : ∀ ci c, S.findIdx? "TAX1099RQ".toList = some ci → S.cls? ci = some c →
+      ClsAny S c ci ∧ c.extra = .none ∧ c.optMutex = [] ∧ c.reqMutex = [])
+    (hcv : ConvOK cv Ptext) (hinto : ConvInto cv S.enums Dom Ptext Pd) (laws : ConvLaws cv S.enums esc Dom)
+    (hy : ConvYear cv) (hyd : ConvYearDom cv S.enums Dom)
+    (cfg : Cfg) (pw : Str) (years : List Str) (acctnum recid : Option Str) (us : Nat → Str) (dtc : DT)
+    (htexts : ∀ s ∈ cfg.texts, Ptext s) (hpw : Ptext pw)
+    (hacct : ∀ s, acctnum = some s → Ptext s) (hrec : ∀ s, recid = some s → Ptext s)
+    (hyears : ∀ y ∈ years, ∃ j : Int, y = pyStrInt j) (hdt : Pd dtc) (hu : Ptext (us 0)) {root : Node}
+    (h : requestTax S cv cfg pw years acctnum recid us dtc = .ok root) : Valid S cv esc Dom root := by
+  simp only [requestTax] at h
+  obtain ⟨so, hso, h1⟩ := bind_ok h
+  obtain ⟨rq, hrq, h2⟩ := bind_ok h1
+  obtain ⟨trn, htrn, h3⟩ := bind_ok h2
+  obtain ⟨msgs, hmsgs, hroot⟩ := bind_ok h3
+  clear h h1 h2 h3
+  obtain ⟨hvso, cis, fs, rfl, hsoidx⟩ := signon_valid (esc := esc) hS hW hcv hinto laws cfg pw none dtc htexts hpw
+    (by simp) hdt hso
+  -- TAX1099RQ, an ElementList
+  obtain ⟨ci, c, hT⟩ := taxWF_of hT
+  obtain ⟨hany, htriv⟩ := hTany ci c hT.fits.idx hT.fits.cls
+  have horN : ∀ (o : Option Str), (∀ s, o = some s → Ptext s) → ∀ s, orNone o = some s → Ptext s := by
+    intro o ho s hs
+    cases o with
+    | none => simp [orNone] at hs
+    | some t =>
+      simp only [orNone] at hs
+      split at hs
+      · simp at hs
+      · simp only [Option.some.injEq] at hs; exact hs ▸ ho t rfl
+  have kwT : ∀ (k : String) (o : Option Str), (k, Shape.text) ∈ tTAXRQ → (∀ s, o = some s → Ptext s) →
+      KwWire S cv esc Dom c Ptext Pd (kv k (osv o)) := by
+    intro k o hm ho
+    cases o with
+    | none => exact Or.inl rfl
+    | some s =>
+      obtain ⟨a, ha, hn, hs⟩ := hT.fits.attrs k .text hm
+      exact Or.inr ⟨a, ha, hn, .text, hs, by simpa [osv, kv, Shape.fits] using ho s rfl, by simp [NodeWire, kv, osv],
+        by intro cj f i h; simp [kv, osv] at h⟩
+  have hkw : ∀ p ∈ [kv "acctnum" (osv (orNone acctnum)), kv "recid" (osv (orNone recid))],
+      KwWire S cv esc Dom c Ptext Pd p :=
+    forall_kw_cons (kwT "acctnum" _ (by simp) (horN _ hacct))
+      (forall_kw_cons (kwT "recid" _ (by simp) (horN _ hrec)) (forall_kw_nil _))
+  have hvrq : Valid S cv esc Dom rq := by
+    have hmk := hrq
+    simp only [mk, hT.fits.idx] at hmk
+    apply construct_valid_any S cv esc Dom hany hmk (kw_fieldOk hcv hinto hT.fits.nodup hkw)
+    · intro hel; rw [hT.el] at hel; cases hel
+    · intro _ a ha inner ireq hk m hm x hx
+      obtain ⟨a0, l, ireq0, hfil, hk0⟩ := hT.elem
+      have : a ∈ c.spec.filter (fun a => a.kind.isListElem) :=
+        List.mem_filter.mpr ⟨ha, by rw [hk]; rfl⟩
+      rw [hfil] at this
+      simp only [List.mem_singleton] at this
+      subst this
+      rw [hk0] at hk
+      injection hk with hk1 hk2
+      subst hk1 hk2
+      obtain ⟨y, hy', rfl⟩ := List.mem_map.mp hm
+      obtain ⟨j, rfl⟩ := hyears y hy'
+      simp only [sv, Node.toVal] at hx
+      have hxj := hy _ _ _ _ _ hx
+      exact ⟨by rw [hxj]; simp, hyd _ _ _ _ hx⟩
+    · intro fields items _ _
+      exact validate_trivial S c _ _ htriv.1 htriv.2.1 htriv.2.2
+  obtain ⟨f, items, rfl, _, _⟩ := mk_fields hcv hT.fits (fun p hp => (hkw p hp).fit) hrq
+  obtain ⟨hvt, cit, ft, ct, rfl, hct, hdot⟩ := trn_valid hS hW hcv hinto (name := "TAX1099TRNRQ")
+    (inner := "tax1099rq") (tbl := tTAXTRNRQ) (by simp [reqTable]) (by simp) (by simp) (by decide) (by decide)
+    (by decide) hu (by rw [show upper "tax1099rq".toList = "TAX1099RQ".toList from by decide]; exact hT.fits.idx)
+    hvrq htrn
+  refine single_valid hS hW hcv hinto (attr := "tax1099msgsrqv1") (msgCls := "TAX1099MSGSRQV1") (by simp) (by simp)
+    (by simp [reqTable]) (by decide) hvso hsoidx hvt ⟨cit, ft, [], ct, rfl, hct, hdot⟩ ?_ hmsgs hroot
+  intro ciM cM hcM kw
+  unfold taxMsgsValB at hTM
+  rw [hcM.idx] at hTM
+  simp only [hcM.cls, Bool.and_eq_true, decide_eq_true_eq, List.isEmpty_iff] at hTM
+  simp [validateArgs, hTM.1.1, hTM.1.2, hTM.2, extraRule, enforceCount, bind, Except.bind]
+
+end
+section
+open Ofx.Types
+/-! ## Part 16: remaining premises of the tax request's validity, by name -/
+
+/-- `TAX1099RQ` is concrete and has no hand-coded `validate_args`, no exclusivity groups -/
+def taxRqValB (S : Schema) : Bool :=
+  match S.findIdx? "TAX1099RQ".toList with
+  | none => false
+  | some ci =>
+    match S.cls? ci with
+    | none => false
+    | some c => !c.abstract && decide (c.extra = .none) && c.optMutex.isEmpty && c.reqMutex.isEmpty
+
+theorem taxRqVal_of {S : Schema} (h : taxRqValB S = true) {ci : Nat} {c : Cls}
+    (hi : S.findIdx? "TAX1099RQ".toList = some ci) (hc : S.cls? ci = some c) :
+    c.abstract = false ∧ c.extra = .none ∧ c.optMutex = [] ∧ c.reqMutex = [] := by
+  unfold taxRqValB at h
+  rw [hi] at h
+  simp only [hc, Bool.and_eq_true, Bool.not_eq_eq_eq_not, Bool.not_true, decide_eq_true_eq, List.isEmpty_iff] at h
+  exact ⟨h.1.1.1, h.1.1.2, h.1.2, h.2⟩
+
+theorem conv_yearDom (enums : List (List Str)) : ConvYearDom Types.conv enums (typesDomWire enums) := by
+  intro l r j x h
+  simp only [Types.conv, Types.convert, Types.integerConvert] at h
+  have hne : (pyStrInt j).length ≠ 0 := fun h0 => Ofx.Types.pyStrInt_ne_nil j (List.length_eq_zero_iff.mp h0)
+  simp only [hne, if_false, pyIntParse_pyStrInt, bind, Except.bind] at h
+  rw [intEnforceLength_ok] at h
+  split at h
+  · simp at h
+  · rename_i u hu
+    simp only [pure, Except.pure, Except.ok.injEq] at h
+    have hf : intFits l j = true := by
+      by_cases hf : intFits l j = true
+      · exact hf
+      · rw [if_neg hf] at hu; cases hu
+    exact ⟨j, h.symm, hf⟩
 
 end
 
